@@ -182,7 +182,18 @@ def run_shards(module, n, extra_env=None, args=None, timeout=3600):
         for i in range(n):
             out = os.path.join(d, "%d.json" % i)
             cmd = [PY, "-m", "vf.shard", module, str(i), str(n), out] + list(args or [])
-            procs.append((i, out, subprocess.Popen(cmd, env=env, cwd=VERIF, stdout=subprocess.PIPE, stderr=subprocess.STDOUT)))
+            # execution environments vary between shards: the properties do not depend on them
+            env_i = dict(env)
+            cwd_i = VERIF
+            if i % 4 == 3:
+                env_i["PYTHONOPTIMIZE"] = "1"  # `assert` statements vanish
+            if i % 4 == 2:
+                cwd_i = d  # another current directory
+                env_i["PYTHONHASHSEED"] = str(1000 + i)
+            if i % 4 == 1:
+                env_i["PYTHONUTF8"] = "0"
+                env_i["LC_ALL"] = "C"
+            procs.append((i, out, subprocess.Popen(cmd, env=env_i, cwd=cwd_i, stdout=subprocess.PIPE, stderr=subprocess.STDOUT)))
         results, inconc = [], []
         deadline = time.time() + timeout
         for i, out, p in procs:
